@@ -127,6 +127,27 @@ pub fn exec(rec: &Value, _st: &mut State) -> Value {
             json!({"e0": desc(&mut q, &c), "e1": desc(&mut q, &c1), "back": desc(&mut q, &back), "seq": desc(&mut q, &seq), "comp": desc(&mut q, &comp),
                    "s0": s0, "s1": s1, "c0": c0, "c1": cc1, "finite": q.finite})
         }
+        ("dev2", _) => {
+            // signed 2D profile deviations (metrology::line_profiles) of measured points, in three frames: as given, moved by T,
+            // moved by T2 * T (the nominal curve is moved by the library, the measured points by nalgebra)
+            let t = iso2(tv);
+            let t2 = iso2(&rec["T2"]);
+            let pts: Vec<Point2> = gvvi(rec, "pts").iter().map(|x| p2(x)).collect();
+            let c = Curve2::from_points(&pts, 1e-6, gb(rec, "fc")).expect("curve");
+            let c1 = c.transformed_by(&t);
+            let c2 = c1.transformed_by(&t2);
+            let ms: Vec<Point2> = gvvi(rec, "qs").iter().map(|x| p2(x) * 0.5).collect();
+            let devs = |q: &mut Q, c: &Curve2, ms: &[Point2]| -> Vec<Value> {
+                let set = engeom::metrology::line_profiles::line_surface_deviations(c, ms, None);
+                set.iter().map(|d| json!({"v": q.q(d.deviation, QS), "p": qp2(q, &d.surface.point), "n": qn2(q, &d.surface.normal.into_inner())})).collect()
+            };
+            let m1: Vec<Point2> = ms.iter().map(|p| t * p).collect();
+            let m2: Vec<Point2> = m1.iter().map(|p| t2 * p).collect();
+            let f0 = devs(&mut q, &c, &ms);
+            let f1 = devs(&mut q, &c1, &m1);
+            let f2 = devs(&mut q, &c2, &m2);
+            json!({"f0": f0, "f1": f1, "f2": f2, "finite": q.finite})
+        }
         ("seg", _) => {
             let t = iso2(tv);
             let s0 = Segment2::try_new(p2(&gvi(rec, "a")), p2(&gvi(rec, "b"))).expect("segment");
